@@ -225,6 +225,14 @@ class MainTransformer(object):
                 "with '%s'" % (target.symbol,
                              target.shadows,
                              rename_to))
+        elif target is node or node.shadowed_by or node.shadows:
+            # A function can be in one shadows/shadowed-by pair only:
+            # the GIR has room for one of the two attributes
+            message.warn_node(node,
+                "Function '%s' is already shadowed by or shadows '%s', "
+                "can't rename it to '%s'" % (node.symbol,
+                                            node.shadowed_by or node.shadows,
+                                            rename_to))
         else:
             target.shadowed_by = node.name
             node.shadows = target.name
